@@ -156,6 +156,8 @@ theorem foreignOK_of_cover (cfg : Cfg S) (F : List S) (evs : List (Ev S)) : ∀ 
       exact ih _ _ (fun u hu x hx m hm => subset_addSuppr _ _ _ _ (h u hu x (by simpa [reportsOf] using hx) m hm))
     | remarks r => simp only [foreignOK]; exact ih _ _ (fun u hu x hx => h u hu x (by simpa [reportsOf] using hx))
     | macros m => simp only [foreignOK]; exact ih _ _ (fun u hu x hx => h u hu x (by simpa [reportsOf] using hx))
+    | probe y => simp only [foreignOK]; exact ih _ _ (fun u hu x hx => h u hu x (by simpa [reportsOf] using hx))
+    | mark toks => simp only [foreignOK]; exact ih _ _ (fun u hu x hx => h u hu x (by simpa [reportsOf] using hx))
     | report x =>
       simp only [foreignOK, Bool.and_eq_true, Bool.or_eq_true]
       refine ⟨Or.inr ?_, ih _ _ (fun u hu y hy => h u hu y (by simp [reportsOf, hy]))⟩
@@ -226,6 +228,46 @@ theorem supprMatches_exact_file (s : Suppr) (x : Finding) (m : List Str)
     simp only [hty', Bool.false_eq_true, if_false, Bool.and_eq_true, hfn', Bool.false_or, fileTest, hin,
       Bool.and_self, if_true, beq_iff_eq] at h
     exact h.1.1.1.2.symm
+
+/-! ## the `checked` flags of the shared suppression list (unmatchedSuppression is decided from them after the last file) -/
+
+/-- **`mark_frame`**: `markUnmatchedInlineSuppressionsAsChecked` for the token list of a file never sets the flag of an
+    entry whose file NAME is not in the file table of that token list -/
+theorem mark_frame (cfg : Cfg S) (toks : List (Str × Int)) (st : State S) (s : S)
+    (hfile : ∀ t, t ∈ toks → cfg.fileOf s ≠ t.1) (h : s ∈ (markStep cfg toks st).checked) : s ∈ st.checked := by
+  rcases (markStep_checked_mem cfg toks st s).1 h with h1 | ⟨_, t, ht, hf, _⟩
+  · exact h1
+  · exact absurd hf (hfile t ht)
+
+/-- the executable form of "no event of this file can set the flag of `s`": no marked token list names the file of `s`
+    on a line passing its line test, and no tested message touches `s` under the macro sets `ms` -/
+def cannotCheck (cfg : Cfg S) (s : S) (ms : List (List Str)) (evs : List (Ev S)) : Bool :=
+  (marksOf evs).all (fun toks => toks.all (fun t => !(cfg.fileOf s == t.1 && cfg.markLine s t.2))) &&
+  (testedOf evs).all (fun x => ms.all (fun m => !cfg.touches s x m))
+
+/-- **`checked_frame`** (H6, provable for the code of record): whatever files are analysed, in whatever number and order, the
+    `checked` flag of an entry is only set by a file whose token list contains the entry's file (by name) on a fitting line,
+    or by a message that touches the entry.  So files that do not contain `A` and report nothing at `A`'s places leave the
+    flags of `A`'s inline suppressions — hence the unmatchedSuppression findings located in `A` — as they were. -/
+theorem checked_frame (cfg : Cfg S) (analyze : α → Trace S) (init : State S) (others : List α) (s : S)
+    (hno : ∀ g, g ∈ others → ¬ couldCheck cfg s (analyze g).evs)
+    (h : s ∈ (stateAfter cfg analyze init others).checked) : s ∈ init.checked := by
+  rcases stateAfter_checked_origin cfg analyze others init s h with h1 | ⟨g, hg, h1⟩
+  · exact h1
+  · exact absurd h1 (hno g hg)
+
+/-- `cannotCheck` with every macro set that occurs decides `¬ couldCheck` for messages whose touch test ignores the macro
+    names (all but macro-type suppressions) -/
+theorem not_couldCheck_of_cannotCheck (cfg : Cfg S) (s : S) (evs : List (Ev S))
+    (hm : ∀ x m m', cfg.touches s x m = cfg.touches s x m')
+    (h : cannotCheck cfg s [[]] evs = true) : ¬ couldCheck cfg s evs := by
+  simp only [cannotCheck, Bool.and_eq_true, List.all_eq_true, Bool.not_eq_true', List.mem_singleton, forall_eq] at h
+  rintro (⟨toks, ht, t, htt, hf, hl⟩ | ⟨x, hx, m, hxm⟩)
+  · have := h.1 toks ht t htt
+    simp [hf, hl] at this
+  · have := h.2 x hx
+    rw [hm x m []] at hxm
+    rw [hxm] at this; cases this
 
 /-! ## the hypotheses are satisfiable, and each one is needed (the code at the excluded points) -/
 
@@ -330,6 +372,34 @@ theorem file_findings_independent_counterexample_stale_macros :
 
 example : staleMacrosOK (stateAfter cfg0 analyzeS (initState []) ["a.c"]).locMacros [] (analyzeS "b.c").evs = false := by
   decide
+
+/-- the seeded scenario (`seeded/C17-inline-suppr-marked-by-file-index`): `a.c` has an inline suppression on a line inside
+    `#if 0` (line 5 never reaches the token list), `b.c` has code on lines 1..8 -/
+private def deadSuppr : Suppr := ⟨"nullPointer".toList, "a.c".toList, 6, [], .unique, NO_LINE, NO_LINE, false, [], true⟩
+
+private def analyzeD : String → Trace Suppr
+  | "a.c" => ⟨[.suppr deadSuppr, .mark [("a.c".toList, 1), ("a.c".toList, 2), ("a.c".toList, 8), ("a.c".toList, 9)]], false⟩
+  | "b.c" => ⟨[.mark [("b.c".toList, 1), ("b.c".toList, 2), ("b.c".toList, 3), ("b.c".toList, 4), ("b.c".toList, 5),
+               ("b.c".toList, 6), ("b.c".toList, 7), ("b.c".toList, 8), ("b.c".toList, 9)]], false⟩
+  | _ => ⟨[], false⟩
+
+/-- code of record: no unmatchedSuppression for `a.c`, alone and in company, in both orders -/
+theorem dead_suppression_stays_unchecked :
+    unmatchedInline (stateAfter cfg0 analyzeD (initState []) ["a.c"]) = [] ∧
+    unmatchedInline (stateAfter cfg0 analyzeD (initState []) ["a.c", "b.c"]) = [] ∧
+    unmatchedInline (stateAfter cfg0 analyzeD (initState []) ["b.c", "a.c"]) = [] := by
+  decide
+
+/-- marking by file INDEX instead of by name (the seeded change: during `b.c` index 0 is `b.c`, so the entry of `a.c` is
+    compared with `b.c`'s lines) is what `fileOf := fun _ => "b.c"` amounts to for that entry: the frame property fails,
+    the run `a.c b.c` reports an unmatchedSuppression located in `a.c` that `a.c` alone does not -/
+theorem mark_by_index_counterexample :
+    let byIndex : Cfg Suppr := { cfg0 with fileOf := fun s => if s == deadSuppr then "b.c".toList else s.fileName }
+    unmatchedInline (stateAfter cfg0 analyzeD (initState []) ["a.c"]) = [] ∧
+    unmatchedInline (stateAfter byIndex analyzeD (initState []) ["a.c", "b.c"]) = [deadSuppr] := by
+  decide
+
+example : cannotCheck cfg0 deadSuppr [[]] (analyzeD "b.c").evs = true := by decide
 
 end witnesses
 
